@@ -21,6 +21,10 @@
      twist.py:1128  Twist2.isvalid (3x3 form)  iszerovec(diag) and iszerovec(v[2,:]) and (not check or isskew(v[:2,:2]))
      quaternion.py:1017 UnitQuaternion.isvalid x.shape == (4,) and (not check or isunitvec(x))
    The shape tests are part of the types here; the dispatch on shapes is modelled in C07_Ctor.v.
+   Membership is a property of the VALUES an array holds, not of the dtype they are stored in: the model has one scalar type
+   and no dtype parameter, so every theorem (rejection band at 1e-6, tolerance tol*eps with eps = 2^-52 exactly) applies to
+   the stored values whatever their dtype.  The implementation side of this is checked by the dtype sweep of props/C07.py
+   (float32, float16, int64, longdouble, object arrays: a value beyond the band must not be accepted, an exact member must be).
    `tol` is a parameter (the Python keyword argument); the defaults are regenerated from the source AST into
    gen/Consts_C07.v on every run, together with a check of the comparison skeleton of each function. *)
 From Coq Require Import ZArith Bool.
